@@ -12,6 +12,7 @@ import (
 	"cmp"
 	"context"
 	"fmt"
+	shpanstream "github.com/shpandrak/shpanstream"
 	"io"
 	"strconv"
 	"strings"
@@ -110,6 +111,74 @@ func execC05Demand(caseText string) (obs string) {
 			got = len(l)
 		}
 		return fmt.Sprintf("build=%d run=%d got=%d", build, ends-build, got)
+	case "fi1", "fi2":
+		// FromIterator / FromIterator2 over a generator of n elements that counts its steps: nothing runs when the stream is
+		// built, a prefix-only terminal advances the generator by the prefix (it is stopped, not drained, at close)
+		if len(head) != 4 {
+			return "bad-case"
+		}
+		n, err := strconv.Atoi(head[2])
+		if err != nil || n < 0 {
+			return "bad-case"
+		}
+		steps := 0
+		var s stream.Stream[int]
+		if head[1] == "fi1" {
+			s = stream.FromIterator(func(yield func(int) bool) {
+				for i := 0; i < n; i++ {
+					steps++
+					if !yield(i) {
+						return
+					}
+				}
+			})
+		} else {
+			s = stream.Map(stream.FromIterator2(func(yield func(int, int) bool) {
+				for i := 0; i < n; i++ {
+					steps++
+					if !yield(i, i*i) {
+						return
+					}
+				}
+			}), func(e shpanstream.Entry[int, int]) int { return e.Key })
+		}
+		build := steps
+		got := 0
+		switch head[3] {
+		case "all":
+			l, err := s.Collect(ctx)
+			if err != nil {
+				return "err"
+			}
+			got = len(l)
+		case "isempty":
+			e, err := s.IsEmpty(ctx)
+			if err != nil {
+				return "err"
+			}
+			if !e {
+				got = 1
+			}
+		case "first":
+			o, err := s.FindFirst().GetOptional(ctx)
+			if err != nil {
+				return "err"
+			}
+			if o != nil {
+				got = 1
+			}
+		default:
+			k, err := strconv.Atoi(head[3])
+			if err != nil {
+				return "bad-case"
+			}
+			l, err := s.Limit(k).Collect(ctx)
+			if err != nil {
+				return "err"
+			}
+			got = len(l)
+		}
+		return fmt.Sprintf("build=%d run=%d got=%d", build, steps-build, got)
 	case "jni":
 		// N-way inner join over counting sources under Limit(k)
 		if len(head) != 3 || len(parts) < 2 {
@@ -184,6 +253,17 @@ func genC05Demand(c *Ctx) {
 	// an effectively unbounded range: only a prefix is ever asked for
 	for _, take := range []string{"isempty", "first", "3"} {
 		c.Case(true, fmt.Sprintf("T ats 100000000 %s", take))
+	}
+	// iterator-backed sources: the generator is advanced by what the terminal takes, never walked ahead
+	for _, kind := range []string{"fi1", "fi2"} {
+		for _, n := range []int{0, 1, 2, 5, 40} {
+			for _, take := range []string{"all", "isempty", "first", "0", "1", "2", "7"} {
+				c.Case(n >= 2, fmt.Sprintf("T %s %d %s", kind, n, take))
+			}
+		}
+		for _, take := range []string{"isempty", "first", "3"} {
+			c.Case(true, fmt.Sprintf("T %s 30000000 %s", kind, take))
+		}
 	}
 	// N-way inner join: all pairs / triples of strictly increasing inputs over {0..3} (+ one long input that lags behind),
 	// every prefix length: a lagging input advances one element per round, it is not read on until it catches up
